@@ -1272,7 +1272,9 @@ def register(R):
         out = {}
         for e in flat(evs):
             x = e.extra.get('raised') if e.kind in ('ext', 'call') else None
-            if x is not None:
+            if x is not None and x.cls != '$stored':
+                # (an exception of unknown class re-raised from the coordinator is retried only on the path where the
+                # handler's class test matched it, i.e. where it IS of a retryable class)
                 out[f'only_retryable_stream_errors_are_retried.{x.cls}'] = (B(is_stream_error(eng, x)), props)
         return out
     R.retry_clauses = retry_clauses
@@ -1371,7 +1373,8 @@ def register(R):
                                 bandwidth_limiter=[('unlimited', Const(None)), ('limited', ObjT('s3transfer.bandwidth:BandwidthLimiter'))]),
         inline_callees=['s3transfer.bandwidth:BandwidthLimitedStream.read'],
         setup=got_setup, checks=got_checks,
-        raises={'s3transfer.exceptions:RetriesExceededError': got_raises_retries, 'Exception': only_propagates},
+        # ($stored: a throttled read re-raises the exception another thread recorded for the transfer)
+        raises={'s3transfer.exceptions:RetriesExceededError': got_raises_retries, 'Exception': only_propagates, '$stored': only_propagates},
         raise_when={'Exception': lambda c: None},
         loops={0: LoopSpec(invariant=lambda l: dict(stream_link(l.st), abandoned_attempts_net_to_zero_progress=to_int_term(l.st.ghost['reported']) == 0),
                            iteration_checks=got_outer_iteration, havoc_heap=got_outer_havoc,
